@@ -151,6 +151,52 @@ def _batches(recs, batch, strict=False):
     return content
 
 
+def c18_evolve_colliding(order="12"):
+    from flow.record import RecordDescriptor, RecordWriter
+
+    D1 = RecordDescriptor("c18/col", [("string", "host"), ("string", "name")])
+    D2 = RecordDescriptor("c18/col", [("string", "hoststringname")])
+    recs = [D1(host="h", name="n", _generated=GEN), D2(hoststringname="x", _generated=GEN)]
+    with tempfile.TemporaryDirectory() as td:
+        p = os.path.join(td, "a.sqlite")
+        w = RecordWriter("sqlite://" + p)
+        out = []
+        for r in (recs if order == "12" else recs[::-1]):
+            try:
+                w.write(r)
+                out.append("written")
+            except Exception as e:
+                out.append(f"raised {type(e).__name__}")
+        w.close()
+        con = sqlite3.connect(p)
+        cols = sorted(c[1] for c in con.execute('PRAGMA table_info("c18/col")').fetchall() if not c[1].startswith("_"))
+        nrows = con.execute('SELECT count(*) FROM "c18/col"').fetchone()[0]
+        con.close()
+    ok = out == ["written", "written"] and cols == ["host", "hoststringname", "name"] and nrows == 2
+    return {"violates": not ok, "detail": None if ok else f"writes {out}, columns {cols}, rows {nrows}"}
+
+
+def c18_refused(batch=1000):
+    from flow.record import RecordDescriptor, RecordWriter
+
+    D = RecordDescriptor("c18/b", [("varint", "n"), ("string", "s")])
+    with tempfile.TemporaryDirectory() as td:
+        p = os.path.join(td, "a.sqlite")
+        w = RecordWriter("sqlite://" + p, batch_size=batch)
+        accepted = []
+        for i, v in enumerate([0, 1, 2**80, 3, 4, -(2**70), 5]):
+            try:
+                w.write(D(n=v, s=f"r{i}", _generated=GEN))
+                accepted.append(v)
+            except Exception:
+                pass
+        w.close()
+        rows = _rows(p, "c18/b")
+    stored = [r[0] for r in rows] if rows is not None else None
+    ok = accepted == [0, 1, 3, 4, 5] and stored == accepted
+    return {"violates": not ok, "detail": None if ok else f"batch size {batch}: accepted n={accepted}, stored after close n={stored}"}
+
+
 def c18_batches(n=3, batch=2, strict=False):
     from flow.record import RecordDescriptor
 
@@ -228,4 +274,4 @@ def c18_sweep(seed=0, n=60):
     return {"violates": False, "cases": cases}
 
 
-CALLS = {"c18_rowid_column": c18_rowid_column, "c18_row": c18_row, "c18_names": c18_names, "c18_evolve": c18_evolve, "c18_batches": c18_batches, "c18_sweep": c18_sweep}
+CALLS = {"c18_evolve_colliding": c18_evolve_colliding, "c18_refused": c18_refused, "c18_rowid_column": c18_rowid_column, "c18_row": c18_row, "c18_names": c18_names, "c18_evolve": c18_evolve, "c18_batches": c18_batches, "c18_sweep": c18_sweep}
